@@ -7,7 +7,7 @@ package actor
 // the directive, and the restart budget / backoff decision.
 
 //@ property C07
-//@ load github.com/tochemey/goakt/v4/supervisor github.com/tochemey/goakt/v4/internal/commands
+//@ load github.com/tochemey/goakt/v4/supervisor github.com/tochemey/goakt/v4/internal/commands go.uber.org/atomic time
 
 //@ ghost var sup_actions int
 
@@ -65,3 +65,19 @@ package actor
 //@   at call 1 of (*PID).Tell assert tells-the-parent-the-resolved-directive: (ok1 || ok2) && msg.Directive == ite(ok1, dir1, dir2) && msg.Directive != supervisor.ResumeDirective && msg.Supervisor == pid.supervisor && msg.Err == signal.err && arg0 == pid && arg2 == parent
 //@ structural writers supervisionSignal.err: newSupervisionSignal
 //@ structural writers PID.supervisor: newPID, withSupervisor
+
+// Stop: the faulty child and, under one-for-all, every sibling (running or not)
+// is handed to Shutdown - one goroutine each
+//@ ghost local stop_n int
+//@ ghost local sib_n int
+//@ func (*PID).handleStopDirective(pid, cid, includeSiblings)
+//@   ghost entry stop_n = 0
+//@   ghost entry sib_n = 0
+//@   at call 1 of (*tree).siblings assert siblings-of-the-faulty-child: arg1 == cid
+//@   at call 1 of (*tree).siblings ghost sib_n = len(result)
+//@   at call 1 of (*Group).Go ghost stop_n = stop_n + 1
+//@   loop 1 invariant bounds: -1 <= rangeindex && rangeindex < len(pids)
+//@   loop 1 invariant one-shutdown-per-member: stop_n == rangeindex + 1
+//@   loop 1 invariant whole-group: len(pids) == 1 + ite(includeSiblings, sib_n, 0)
+//@   ensures stops-the-child-and-every-sibling: stop_n == 1 + ite(includeSiblings, sib_n, 0)
+//@ structural mustcall (*PID).handleStopDirective$1: (*PID).Shutdown
